@@ -69,6 +69,13 @@ func (e *Eng) hashOf(in SliceVal) []*Term {
 		p.hashes = append(p.hashes, &hashApp{in: in, out: out, conc: true})
 		return out
 	}
+	// structurally equal inputs get the very same output terms (no relational query needed later)
+	for _, prev := range p.hashes {
+		if !prev.conc && e.ropeEqual(in, prev.in) {
+			e.stats.RopeHits++
+			return prev.out
+		}
+	}
 	n := len(p.hashes)
 	out := make([]*Term, 32)
 	for i := range out {
